@@ -17,7 +17,7 @@ Proof. split; vm_compute; reflexivity. Qed.
 
 Lemma table_entry : forall i, 0 <= i < 651 -> exists lo hi, idx POWER_OF_FIVE_128_Z i = Some (lo, hi) /\ 0 <= lo < W64 /\ 0 <= hi < W64.
 Proof.
-  intros i Hi. destruct table_bounds as [B L]. unfold idx. destruct (Z.ltb_spec i 0); [lia|].
+  intros i Hi. destruct table_bounds as [B L]. unfold idx. rewrite L. destruct (Z.ltb_spec i 0); [lia|]. destruct (Z.leb_spec (Z.of_nat 651) i); [lia|]. cbn [orb].
   destruct (nth_error POWER_OF_FIVE_128_Z (Z.to_nat i)) as [[lo hi]|] eqn:E.
   - exists lo, hi. split; [reflexivity|]. rewrite forallb_forall in B. specialize (B (lo, hi) (nth_error_In _ _ E)). cbn [fst snd] in B.
     apply andb_true_iff in B. destruct B as [B B4]. apply andb_true_iff in B. destruct B as [B B3]. apply andb_true_iff in B. destruct B as [B1 B2]. lia.
